@@ -22,11 +22,11 @@ type Job struct {
 //	PARSE:<msg>        the parser rejected the case
 //	CTL:<..> NOREC MULTI:<..>   anything else
 type Batch struct {
-	Prelude string        // statements run before the cases of every script
-	NewEnv  func() *Env   // fresh environment per script
-	Size    int           // cases per script (default 200)
-	Scripts int64         // scripts executed (batch + bare)
-	Bare    int64         // bare single-case executions
+	Prelude string            // statements run before the cases of every script
+	NewEnv  func() *Env       // fresh environment per script
+	Size    int               // cases per script (default 200)
+	Scripts int64             // scripts executed (batch + bare)
+	Bare    int64             // bare single-case executions
 	Msgs    map[string]string // ID -> message of the error / panic (diagnostics only)
 }
 
